@@ -450,6 +450,9 @@ pub fn gen_msg_program(id: &str, tape: Vec<u32>, opts: &GenOpts) -> Program {
         kinds_present.push(Kind::Migrate);
     }
     let msg_attrs = gen_msg_attrs(t, &kinds_present, opts, &mut mk);
+    // a fifth of the generic contracts spell the error type of their StdError-returning query
+    // handlers `GenErr<Ti>`: Ti then occurs in the error position of a query's return type only
+    let query_err_param = if !generics.is_empty() && t.chance(20) { Some(t.pick(generics.len())) } else { None };
 
     Program {
         id: id.to_string(),
@@ -465,6 +468,7 @@ pub fn gen_msg_program(id: &str, tape: Vec<u32>, opts: &GenOpts) -> Program {
             msg_attrs,
             methods,
             entry_points: true,
+            query_err_param,
         },
         interfaces,
     }
@@ -668,6 +672,7 @@ pub fn gen_reply_program(id: &str, tape: Vec<u32>, opts: &GenOpts, any_order: bo
             msg_attrs: vec![],
             methods,
             entry_points: true,
+            query_err_param: None,
         },
         interfaces: vec![],
     }
